@@ -82,6 +82,10 @@ func (u *Unit) callVals(fr *Frame, st *State, c *ssa.CallCommon, fn Val, args []
 			}
 			return u.inline(fr, st, cl, args, bind, pos)
 		}
+		// a named func type with a contract (e.g. context.CancelFunc)
+		if ct := u.prog.specs.Contracts["functype:"+namedKey(c.Value.Type())]; ct != nil {
+			return resultsToVal(sig, u.applyContract(fr, st, ct, sig, args, false, pos, "functype:"+namedKey(c.Value.Type())))
+		}
 		// dynamic function value: field-func contract?
 		if key := fieldFuncKey(c.Value); key != "" {
 			if ct := u.prog.specs.Contracts["fieldfunc:"+key]; ct != nil {
@@ -111,6 +115,14 @@ func fieldFuncKey(v ssa.Value) string {
 func (u *Unit) callStatic(fr *Frame, st *State, fn *ssa.Function, args []Val, pos token.Pos) Val {
 	key := funcKey(fn)
 	sig := fn.Signature
+	switch key {
+	case "(*sync.Mutex).Lock", "(*sync.RWMutex).Lock", "(*sync.RWMutex).RLock":
+		u.lockOp(st, args, pos, true)
+		return nil
+	case "(*sync.Mutex).Unlock", "(*sync.RWMutex).Unlock", "(*sync.RWMutex).RUnlock":
+		u.lockOp(st, args, pos, false)
+		return nil
+	}
 	// synthetic wrappers ($bound, $thunk): unwrap when trivially possible
 	if fn.Synthetic != "" && strings.HasPrefix(fn.Synthetic, "bound method wrapper") {
 		// bound wrapper: FreeVars[0] is the receiver; cannot be reached through FnVal
@@ -242,12 +254,22 @@ func (u *Unit) applyContract(fr *Frame, st *State, ct *Contract, sig *types.Sign
 		u.checkCallFrame(st, nil, true, pos, key)
 		u.havocAll(st, "call to "+key+" (contract modifies everything)")
 	} else {
-		var items []frameItem
+		var items, havoc []frameItem
 		for _, m := range ct.Modifies {
-			items = append(items, u.evalLoc(oldEnv, m.Expr, m.Src)...)
+			its := u.evalLoc(oldEnv, m.Expr, m.Src)
+			items = append(items, its...)
+			assigned := false
+			for _, gs := range ct.GhostSets {
+				if id, ok := m.Expr.(*EIdent); ok && id.Name == gs.Var {
+					assigned = true
+				}
+			}
+			if !assigned {
+				havoc = append(havoc, its...)
+			}
 		}
 		u.checkCallFrame(st, items, false, pos, key)
-		u.havocItems(st, items)
+		u.havocItems(st, havoc)
 	}
 	if ct.Flags["writes-boxed-pointers"] != "" {
 		// e.g. rows.Scan(&a, &b): every cell whose address was boxed into an
@@ -298,8 +320,9 @@ func (u *Unit) applyContract(fr *Frame, st *State, ct *Contract, sig *types.Sign
 			env.vars[n] = envVar{results[i], rs.At(i).Type()}
 		}
 	}
-	// ghost assignments: right-hand sides are evaluated in the state before the call
-	u.applyGhostSets(ct, oldEnv, st)
+	// ghost assignments: assigned ghost variables are not havocked, so the
+	// right-hand side reads their value before the call; results are in scope
+	u.applyGhostSets(ct, env, st)
 	for _, e := range ct.Ensures {
 		u.assume(st, u.evalBoolF(env, st, e.Expr))
 	}
@@ -666,4 +689,55 @@ func (u *Unit) returnsClosure(fr *Frame, st *State, fn *ssa.Function, ct *Contra
 		bind = append(bind, p)
 	}
 	return &ClosureVal{Fn: cl, Bindings: bind}
+}
+
+// lockOp: lock invariants. Lock() = the protected fields take arbitrary values
+// satisfying the invariant (other goroutines may have changed them while the
+// lock was free); Unlock() = the invariant must hold again. This makes facts
+// proved under the lock hold for every interleaving of lock-protected code.
+func (u *Unit) lockOp(st *State, args []Val, pos token.Pos, acquire bool) {
+	if len(args) == 0 {
+		return
+	}
+	recv, ok := args[0].(*Term)
+	if !ok {
+		return
+	}
+	or, ok := u.subOrigins[recv.S]
+	if !ok {
+		u.note("mutex that is not a struct field: lock operations have no modelled effect")
+		return
+	}
+	var li *LockInv
+	for _, l := range u.prog.specs.LockInvs {
+		if l.TypeName == namedKey(or.structT) && l.Mutex == or.field {
+			li = l
+		}
+	}
+	if li == nil {
+		u.note("mutex " + namedKey(or.structT) + "." + or.field + " has no lock invariant: lock operations have no modelled effect")
+		return
+	}
+	s, _ := u.structOf(or.structT)
+	selfT := types.NewPointer(or.structT)
+	if acquire {
+		for _, fname := range li.Fields {
+			for i := 0; i < s.NumFields(); i++ {
+				if s.Field(i).Name() == fname {
+					u.storeField(st, or.structT, s, i, or.base, u.freshVal(st, s.Field(i).Type(), "locked_"+fname))
+				}
+			}
+			for _, g := range u.prog.specs.Ghosts {
+				if g.TypeName == namedKey(or.structT) && g.Field == fname {
+					_, gs := u.resolveType(g.GoType, g.PkgPath)
+					u.storeLoc(st, fieldMapName(or.structT, fname), gs, or.base, u.ctx.FreshConst("locked_"+fname, gs))
+				}
+			}
+		}
+		env := &Env{u: u, st: st, old: st, vars: map[string]envVar{"self": {or.base, selfT}}, pkgPath: li.PkgPath, fvOverride: map[string]freeVarInfo{}}
+		u.assume(st, u.evalBoolF(env, st, li.Clause.Expr))
+		return
+	}
+	env := &Env{u: u, st: st, old: st, vars: map[string]envVar{"self": {or.base, selfT}}, pkgPath: li.PkgPath, fvOverride: map[string]freeVarInfo{}}
+	u.addObl(st, "lockinv/unlock", "lock invariant of "+shortName(namedKey(or.structT))+"."+or.field+" holds at Unlock: "+li.Clause.Src, pos, u.evalBoolF(env, st, li.Clause.Expr))
 }
